@@ -513,7 +513,7 @@ func (g *Gen) callStatic(st *BState, in ssa.Instruction, callee *ssa.Function, a
 		tg, declared := targets[k]
 		switch {
 		case r.Kind == "alloc":
-			g.assume(st, fmt.Sprintf("(forall ((r Int)) (! (=> (select %s r) (select %s r)) :pattern ((select %s r))))", old, n, n))
+			g.assume(st, fmt.Sprintf("(and (not (select %s 0)) (forall ((r Int)) (! (=> (select %s r) (select %s r)) :pattern ((select %s r)))))", n, old, n, n))
 		case r.Kind == "global" || r.Kind == "ghost" || r.Kind == "iter":
 			if !ws[k] {
 				g.assume(st, fmt.Sprintf("(= %s %s)", n, old))
